@@ -102,8 +102,8 @@ package server
 //@ requires [C20] smOK(s)
 //@ modifies map(s.clientStats), s.totalStats.MessageStats.InflightCurrent, c0.MessageStats.InflightCurrent
 //@ ensures [C20] c0 != nil ==> s.clientStats[clientID] == c0
-//@ ensures [C20] cur == 0 ==> s.totalStats.MessageStats.InflightCurrent == old(s.totalStats.MessageStats.InflightCurrent)
-//@ ensures [C20] cur != 0 ==> s.clientStats[clientID].MessageStats.InflightCurrent == cur - delta && s.totalStats.MessageStats.InflightCurrent == old(s.totalStats.MessageStats.InflightCurrent) - delta
+//@ ensures [C20] min(delta, cur) == 0 ==> s.totalStats.MessageStats.InflightCurrent == old(s.totalStats.MessageStats.InflightCurrent)
+//@ ensures [C20] min(delta, cur) != 0 ==> s.clientStats[clientID].MessageStats.InflightCurrent == cur - min(delta, cur) && s.totalStats.MessageStats.InflightCurrent == old(s.totalStats.MessageStats.InflightCurrent) - min(delta, cur)
 //@ ensures [C20] s.clientStats[clientID].MessageStats.InflightCurrent <= cur
 //@ ensures [C20] cur <= old(s.totalStats.MessageStats.InflightCurrent) ==> s.totalStats.MessageStats.InflightCurrent <= old(s.totalStats.MessageStats.InflightCurrent)
 //@ ensures [C20] forall k string :: k != clientID ==> s.clientStats[k] == old(s.clientStats[k])
@@ -119,8 +119,8 @@ package server
 //@ requires [C20] smOK(s)
 //@ modifies map(s.clientStats), s.totalStats.MessageStats.QueuedCurrent, c0.MessageStats.QueuedCurrent
 //@ ensures [C20] c0 != nil ==> s.clientStats[clientID] == c0
-//@ ensures [C20] cur == 0 ==> s.totalStats.MessageStats.QueuedCurrent == old(s.totalStats.MessageStats.QueuedCurrent)
-//@ ensures [C20] cur != 0 ==> s.clientStats[clientID].MessageStats.QueuedCurrent == cur - delta && s.totalStats.MessageStats.QueuedCurrent == old(s.totalStats.MessageStats.QueuedCurrent) - delta
+//@ ensures [C20] min(delta, cur) == 0 ==> s.totalStats.MessageStats.QueuedCurrent == old(s.totalStats.MessageStats.QueuedCurrent)
+//@ ensures [C20] min(delta, cur) != 0 ==> s.clientStats[clientID].MessageStats.QueuedCurrent == cur - min(delta, cur) && s.totalStats.MessageStats.QueuedCurrent == old(s.totalStats.MessageStats.QueuedCurrent) - min(delta, cur)
 //@ ensures [C20] s.clientStats[clientID].MessageStats.QueuedCurrent <= cur
 //@ ensures [C20] cur <= old(s.totalStats.MessageStats.QueuedCurrent) ==> s.totalStats.MessageStats.QueuedCurrent <= old(s.totalStats.MessageStats.QueuedCurrent)
 //@ ensures [C20] forall k string :: k != clientID ==> s.clientStats[k] == old(s.clientStats[k])
